@@ -9,6 +9,7 @@ import { renderType, renderProgram } from "../gen/ast.mjs";
 import { Env } from "../ref/normalize.mjs";
 import { Ref } from "../ref/member.mjs";
 import { compileText, compileProgram } from "../lib/util.mjs";
+import { report, implOf } from "../lib/report.mjs";
 
 export const FEATURES = {};
 
@@ -47,48 +48,6 @@ export const PROBES = [
   },
   { id: "record-number-key", prog: one(T.util("Record", [T.kw("number"), T.kw("string")])), value: { $obj: "plain", fields: [["1", "x", 1]] }, expect: "Y" },
 ];
-
-function implOf(parser, v, options) {
-  try {
-    return parser.validate(v, options) ? "Y" : "N";
-  } catch (e) {
-    return "T:" + String(e && e.message).slice(0, 60);
-  }
-}
-
-async function report(ctx, item, parserName, core, v, impl, ref, origin, locCache, srcT) {
-  const env = item.prog.env;
-  const ck = `${typeKey(env, core)}|${impl}|${ref}|${valueClass(v)}|${srcT ? h8(renderType(srcT)) : ""}`;
-  let hit = locCache.get(ck);
-  if (!hit) {
-    const judge = makeValidateJudge(env, ctx.compiler, item.ref);
-    // stage 0: does the operator-free core type, compiled on its own, show the same disagreement?
-    const j0 = await judge(core, v);
-    ctx.count("localisations");
-    if (j0 == null || j0.impl === impl || !srcT) {
-      const loc = await localise(env, core, v, judge, { impl, ref });
-      hit = { signature: loc.signature, text: coreProgramText(env, loc.core), value: loc.value, detail: `localised to ${coreProgramText(env, loc.core).trim().split("\n").pop()} on ${show(loc.value)}` };
-    } else {
-      const loc = await localiseSource(ctx, item, srcT, v, { impl, ref });
-      hit = { signature: loc.signature, text: loc.text ?? item.text, value: loc.value, parser: loc.text ? "X" : parserName, detail: `operator ${loc.op}: ${(loc.text ?? item.text).trim().split("\n").slice(-3).join(" ")} on ${show(loc.value)} (impl ${loc.impl}, reference ${loc.ref})`, expect: loc.ref, observed: loc.impl };
-    }
-    locCache.set(ck, hit);
-  }
-  ctx.violation({
-    signature: hit.signature,
-    clause: impl.startsWith("T:") ? "validate-threw" : impl === "Y" ? "accepts-non-member" : "rejects-member",
-    detail: hit.detail,
-    replay: {
-      kind: "pair",
-      text: hit.text,
-      parser: hit.parser ?? "X",
-      value: toEjson(hit.value),
-      expect: hit.expect ?? ref,
-      observed: hit.observed ?? impl,
-      original: { text: item.text, parser: parserName, value: toEjson(v), origin },
-    },
-  });
-}
 
 export async function run(ctx) {
   const locCache = new Map();
